@@ -23,7 +23,8 @@ CLAIM = ("Decides: for MassAction, Arrhenius, Eyring, EyringHS, Radiolytic, Ramp
          "dimensionally homogeneous with dimensionless transcendental arguments for every reaction order, mass-action arguments have "
          "dimension concentration^(1-order)/time and rates concentration/time; the unit acceptance tests divide by / compare with exactly "
          "that dimension, are default checks and propagate failure; get_odesys and the alternative builder strip and re-attach the same unit "
-         "per slot (time, concentration, parameters); dedimensionalisation pairs each argument with the unit it was divided by.")
+         "per slot (time, concentration, parameters); dedimensionalisation pairs each argument with the unit it was divided by."
+         ' Verdict arms of the acceptance tests, dedimensionalisation arms, hand-evaluated rate accumulation, registry-dependent arms (R6). Shared rule A1: no swapped same-named arguments at resolved in-package call sites.')
 DOES_NOT_DECIDE = "numeric equality of rates across registries (follows only if `quantities` conversion is right, C09)"
 ASSUMPTIONS = ["prod over reaction.reac of variables[k]**nu has dimension concentration^order (C03-R2)", "`quantities` constants table"]
 F1 = Fraction(1)
